@@ -36,8 +36,10 @@ class LaneState(tuple):
     cap = property(lambda s: s[2])
     allheld = property(lambda s: s[3])
 
+    rechecked = property(lambda s: s[4])
+
     def rep(self, **kw):
-        names = ('explicit', 'guards', 'cap', 'allheld')
+        names = ('explicit', 'guards', 'cap', 'allheld', 'rechecked')
         return LaneState(tuple(kw.get(n, self[i]) for i, n in enumerate(names)))
 
     @property
@@ -61,7 +63,7 @@ class LaneClient(pathflow.Client):
             self.viol.append(x)
 
     def initial(self, func):
-        return LaneState((frozenset({'<caller>'}) if self.contract else frozenset(), frozenset(), False, False))
+        return LaneState((frozenset({'<caller>'}) if self.contract else frozenset(), frozenset(), False, False, False))
 
     def _lane_call(self, n):
         if n.get('k') == 'CXXMemberCallExpr' and n.get('cc') in LANE_CLS and n.get('cn') in LANE_OPS:
@@ -105,7 +107,7 @@ class LaneClient(pathflow.Client):
                     self.v('R1-lane-pairing', 'beforeLockAllBut() without owning a lane', n)
                 if st.cap:
                     self.v('R1-lane-pairing', 'beforeLockAllBut() twice (self-deadlock on the grow mutex)', n)
-                return [st.rep(cap=True)]
+                return [st.rep(cap=True, rechecked=False)]
             if op == 'beforeUnlockAllBut':
                 if not st.cap:
                     self.v('R1-lane-pairing', 'beforeUnlockAllBut() without the lock-all capability', n)
@@ -113,6 +115,9 @@ class LaneClient(pathflow.Client):
             if op == 'lockAllBut':
                 if not st.cap:
                     self.v('R1-lane-pairing', 'lockAllBut() without the lock-all capability (two growers could deadlock)', n)
+                elif not st.rechecked:
+                    self.v('R1-recheck-under-capability', 'the decision to grow/create is not re-checked after beforeLockAllBut(): acquiring the capability may '
+                           'block (and drop the lane) while another lane performs the very same growth, whose result would then be overwritten', n)
                 return [st.rep(allheld=True)]
             if op == 'unlockAllBut':
                 if not st.allheld:
@@ -131,6 +136,11 @@ class LaneClient(pathflow.Client):
             if tab and n['member'] in tab:
                 self._guarded(st, n, tab[n['member']])
         return [st]
+
+    def branch(self, st, cond, truth, func, tk):
+        if st.cap and not st.allheld and not st.rechecked:
+            return st.rep(rechecked=True)
+        return st
 
     def _guarded(self, st, n, needs):
         f = self.func
@@ -218,11 +228,13 @@ def analyse_lanes(rep, u):
                      {'l': f.d.get('endline', f.line)})
         ca = f.d.get('clsargs') or []
         label = '%s%s::%s@%s' % (cls, '<%s>' % ca[1][:24] if len(ca) > 1 else '', f.name, len(f.d['params']))
-        for rule in ('R1-lane-pairing', 'R1-helper-called-with-lane', 'R2-guarded-by'):
+        for rule in ('R1-lane-pairing', 'R1-helper-called-with-lane', 'R1-recheck-under-capability', 'R2-guarded-by'):
             msgs = ['%s (line %s)' % (m, l) for (r, m, l) in cl.viol if r == rule]
             if rule == 'R2-guarded-by' and not cl.guard_hits:
                 continue
             if rule != 'R2-guarded-by' and not has_lane:
+                continue
+            if rule == 'R1-recheck-under-capability' and not any(x.get('cn') == 'lockAllBut' for x in f.walk() if x.get('k') == 'CXXMemberCallExpr'):
                 continue
             rep.ob(rule, label, not msgs, f.where, ' | '.join(msgs[:3]), nontrivial=bool(cl.nops or cl.guard_hits))
     return nfun, nops, nguard
@@ -293,6 +305,25 @@ def cas_protocol(rep, u):
                     bad.append(n)
             rep.ob('R3-expected-not-overwritten', label, not bad, f.loc(bad[0]) if bad else f.loc(c['node']),
                    '' if not bad else 'the expected head is overwritten by something other than a reload of the same cell')
+            # the search limit (`while (L != SearchedFrom)`) may only be advanced to the head the search started from,
+            # i.e. BEFORE the CAS refreshes the expected variable on failure
+            limits = set()
+            for w in f.walk():
+                if w['k'] == 'WhileStmt':
+                    cnd = strip(kids(w)[-2], casts=True)
+                    if cnd['k'] == 'BinaryOperator' and cnd['op'] == '!=':
+                        for o in kids(cnd):
+                            oo = strip(o, casts=True)
+                            if oo['k'] == 'DeclRefExpr' and oo.get('did') != exp.get('did'):
+                                limits.add(oo.get('did'))
+            for n in f.walk():
+                if n['k'] == 'BinaryOperator' and n['op'] == '=':
+                    l, r = strip(kids(n)[0], casts=True), strip(kids(n)[1], casts=True)
+                    if l['k'] == 'DeclRefExpr' and l.get('did') in limits and r['k'] == 'DeclRefExpr' and r.get('did') == exp['did']:
+                        okm = pathflow.executes_before(f, n['id'], c['node']['id'], dom)
+                        rep.ob('R3-search-limit-before-cas', label, okm, f.loc(n),
+                               '' if okm else 'the search limit `%s` is advanced from `%s` after the CAS may have refreshed it: nodes published by the '
+                               'winning lane are never searched, the same key can be inserted twice' % (l.get('name'), exp.get('name')))
             # on CAS failure the search restarts: the CAS result guards the success exit
             p = f.parent(c['node'])
             while p is not None and p['k'] in facts.TRANSPARENT:
